@@ -21,9 +21,10 @@ def _doc_batch(args):
            'internal': [], 'printed': 0}
     for k in range(n):
         try:
-            w = E.doc_case(_W['drv'], rnd, cls=rnd.choice(big if k % 4 else E.ALL), depth=rnd.choice(opts.get('depths', [0, 1, 2])),
+            w = E.doc_case(_W['drv'], rnd, cls=rnd.choice(E.HARD if k % 8 == 5 else big if k % 4 else E.ALL), depth=rnd.choice(opts.get('depths', [0, 1, 2])),
                            mixed_chk=rnd.random() < opts.get('mixed', 0.25), copy=rnd.random() < opts.get('copy', 0.3),
-                           dots=opts.get('dots', True), roots=rnd.choice(opts.get('roots', [1])))
+                           dots=opts.get('dots', True), roots=rnd.choice(opts.get('roots', [1])),
+                           reuse=rnd.random() < opts.get('reuse', 0.35), sandwich=rnd.random() < opts.get('sandwich', 0.1))
         except Exception:
             import traceback
             out['dis'].append({'harness_error': traceback.format_exc()[-1200:]})
@@ -164,7 +165,9 @@ def generic(ctx, prop, opts, n_quick=(16, 25), n_thorough=(64, 120), with_values
             'distinct_nontrivial': agg['docs'] + (extra_cov.get('value_cases', 0) // 3),
             'traces': agg['docs'], 'disagreements': len(dis),
             'rule': 'generated element trees (random class, schema-directed children to depth 0-3, table-directed attributes and '
-                    'values, then mutations: attribute set/remove, value set, child removal, xml_ shortcuts, to_string of tree and '
+                    'values (valid, arbitrary, and one edit away from valid), then mutations: attribute set/remove, value set, child removal / '
+                    'replacement, explicit forward= indices, xml_ shortcuts, xsd_check switched on a live element, detached or still attached '
+                    'instances re-used under another element, to_string (with and without intelligent_choice) of tree and '
                     'subtrees, deepcopy followed by mutations of either side) executed on the real library and on the Lean models; '
                     'every operation result and every serialisation is compared; distinct = documents (each has its own random '
                     'structure) + a third of the value cases',
